@@ -97,7 +97,10 @@ def make_judge(pid):
             why = "library invoked %s on a node during the structural call" % sorted(set(traps.TRAPLOG))
             del traps.TRAPLOG[:]
         # same history, same op, same fault plan on the reference universe (ex.u was created second: re-arm)
-        ex2 = forest.execute(kind2, ex.n, witness, ex.op, ex.pre, raise_at=ex.raise_at, persist=ex.persist)
+        if ex.raise_at and ex.raise_at[0] == "reenter":
+            ex2 = forest.execute(kind2, ex.n, witness, ex.op, ex.pre, reenter={ex.raise_at[1]: tuple(ex.raise_at[2:])})
+        else:
+            ex2 = forest.execute(kind2, ex.n, witness, ex.op, ex.pre, raise_at=ex.raise_at, persist=ex.persist)
         forest.CUR[0] = ex.u
         t.c["lockstep_pairs"] += 1
         if why is None:
@@ -109,9 +112,13 @@ def make_judge(pid):
                 why = "hook invocations differ from %s" % kind2
         if ex.outcome != "ok" or ex.post != ex.pre:
             t.c["nontrivial"] += 1
-        if why is None and forest.state_invariant(ex.post, ex.labels) is not None:
-            why = "forest is inconsistent after the call: %s" % forest.state_invariant(ex.post, ex.labels)
-        if why is None and not ex.faults and extra.get("queries_after_ops", False):
+        reentrant = bool(ex.raise_at and ex.raise_at[0] == "reenter")
+        corrupt = forest.state_invariant(ex.post, ex.labels)
+        if why is None and corrupt is not None and not reentrant:
+            why = "forest is inconsistent after the call: %s" % corrupt
+        # (hooks that move nodes re-entrantly may legitimately wreck the pinned code's links: only equality of the two
+        #  universes is judged there, and no queries are asked on a wrecked forest)
+        if why is None and corrupt is None and not ex.faults and not reentrant and extra.get("queries_after_ops", False):
             q1 = universe_qvec(ex.u, exporters)
             if check_traps and traps.TRAPLOG:
                 why = "library invoked %s on a node while answering queries" % sorted(set(traps.TRAPLOG))
@@ -214,6 +221,48 @@ def _shape_query_one(t, kind, kind2, shape, pid, traps_on, exporters):
                                                "kind2": kind2, "shape": shape, "traps": traps_on, "exporters": exporters})
 
 
+def deep_chain(kind, kind2, pid):
+    """Degenerate shapes: the two classes must also agree on chains far deeper than any small tree (3000 levels for the
+    parent-walking attributes, 900 for the subtree-walking ones, under the default recursion limit)."""
+    import sys
+    import anytree
+
+    t = core.Tally()
+
+    def run():
+        sys.setrecursionlimit(1000)
+        cls = forest.classes()
+        res = []
+        for k in (kind, kind2):
+            forest.CUR[0] = _NullCtx()
+            out = {}
+            for height, what in ((3000, "up"), (900, "down")):
+                nodes = [cls[k]("n%d" % i) for i in range(height + 1)]
+                for i in range(1, height + 1):
+                    nodes[i].parent = nodes[i - 1]
+                tip, top = nodes[-1], nodes[0]
+                if what == "up":
+                    out["up"] = _safe(lambda: (tip.depth, len(tip.path), tip.root is top, len(tip.ancestors), tip.is_root,
+                                               len(anytree.Walker().walk(tip, top)[0]), len(list(anytree.LevelOrderIter(top))),
+                                               len(list(anytree.LevelOrderGroupIter(top))), len(list(anytree.ZigZagGroupIter(top)))))
+                else:
+                    out["down"] = _safe(lambda: (top.size, len(top.descendants), len(top.leaves), len(list(anytree.PreOrderIter(top))),
+                                                 len(list(anytree.PostOrderIter(top))), len(list(anytree.RenderTree(top)))))
+                    out["height"] = _safe(lambda: nodes[450].height)
+                for nd in nodes:
+                    nd.parent = None
+            res.append(out)
+        t.c["evaluations"] += 1
+        t.c["deep_chain_comparisons"] += 1
+        d = diff(res[0], res[1])
+        if d:
+            t.violation("%s: results on a deep chain differ from %s at %s" % (pid, kind2, d),
+                        {"engine": "E2", "module": "mc.lockstep", "part": "deep_chain", "kind": kind, "kind2": kind2})
+
+    core.guard(t, pid, {"engine": "E2", "module": "mc.lockstep", "part": "deep_chain", "kind": kind, "kind2": kind2}, run, _limit=120)
+    return t
+
+
 class _NullCtx(object):
     def hook(self, *a):
         pass
@@ -225,6 +274,8 @@ def _tup(x):
 
 def replay(c):
     pid = c["property"]
+    if c.get("part") == "deep_chain":
+        return [v["why"] for v in deep_chain(c["kind"], c["kind2"], pid).violations]
     if c.get("part") == "state_queries":
         t = state_queries(c["kind"], c["kind2"], c["n"], [(None, None, _tup(c["witness"]))], pid, c["traps"], c["exporters"])
     else:
